@@ -97,7 +97,109 @@ def observe_sel(kconf, prog, cids):
     return out
 
 
-def build_case(run, item, rng, cap):
+ABSENT_N = -999999999
+BAD_N = -999999998
+
+
+def c_number(tok, typ, tab):
+    """Numeric meaning of a token as a C compiler / JSON / CMake consumer reads it
+    (harness's own reading). Floats are mapped to their rank in the float table."""
+    import math
+    import re as _re
+
+    tok = tok.strip()
+    if typ == "float":
+        try:
+            x = float(tok)
+        except ValueError:
+            return BAD_N, 0
+        if not math.isfinite(x):
+            return BAD_N, 0
+        return tab["numf"].get(str(x), BAD_N), 0
+    m = _re.fullmatch(r"([-+]?)(0[xX][0-9a-fA-F]+|0[0-7]*|[1-9][0-9]*)", tok)
+    if not m:
+        return BAD_N, 0
+    body = m.group(2)
+    if body[:2] in ("0x", "0X"):
+        n, ox = int(body, 16), 1
+    elif len(body) > 1 and body[0] == "0":
+        n, ox = int(body, 8), 0  # C octal
+    else:
+        n, ox = int(body, 10), 0
+    if m.group(1) == "-":
+        n = -n
+    if abs(n) >= 2**31:
+        return BAD_N, ox
+    return n, ox
+
+
+def observe_outs(run, kconf, names, info, tab):
+    import kconfgen.core as kg
+
+    _, htext = kc.header_values(kconf, run.scratch)
+    hdr = dict(re.findall(r"^#define CONFIG_(\w+) (.*)$", htext, re.M))
+    p = os.path.join(run.scratch, "cm_%d" % os.getpid())
+    kg.write_cmake(kconf, p)
+    with open(p) as f:
+        cm = dict(re.findall(r'^set\(CONFIG_(\w+) "(.*)"\)$', f.read(), re.M))
+    os.unlink(p)
+    js = kg.get_json_values(kconf)
+    out = []
+    for n in names:
+        typ = info[n]["type"]
+        if typ not in ("int", "hex", "float"):
+            out.append([ABSENT_N, 0, ABSENT_N, 0, ABSENT_N])
+            continue
+        h, h0 = c_number(hdr[n], typ, tab) if n in hdr else (ABSENT_N, 0)
+        if n in cm:
+            tok = cm[n]
+            if typ == "float":
+                c_, c0 = c_number(tok, typ, tab)
+            elif re.fullmatch(r"0[xX][0-9a-fA-F]+", tok):
+                c_, c0 = int(tok, 16), 1
+            elif re.fullmatch(r"[-+]?[0-9]+", tok):
+                c_, c0 = int(tok, 10), 0
+            else:
+                c_, c0 = BAD_N, 0
+        else:
+            c_, c0 = ABSENT_N, 0
+        if n in js and js[n] is not None:
+            v = js[n]
+            if typ == "float":
+                j_ = tab["numf"].get(str(float(v)), BAD_N) if isinstance(v, (int, float)) else BAD_N
+            else:
+                j_ = v if isinstance(v, int) and abs(v) < 2**31 else BAD_N
+        else:
+            j_ = ABSENT_N
+        out.append([h, h0, c_, c0, j_])
+    return out
+
+
+def apply_by_file(run, kconf, info, vars_, asg):
+    """The same assignment arriving through a hand-written sdkconfig file."""
+    lines = []
+    for v in vars_:
+        val = asg[v["n"]]
+        if val == ktree.NOVAL:
+            continue
+        if v["kind"] == "choice":
+            lines.append("CONFIG_%s=y" % val)
+        elif info[v["n"]]["type"] == "string":
+            lines.append("CONFIG_%s=%s" % (v["n"], ktree.q(val)))
+        elif info[v["n"]]["type"] == "bool" and val == "n":
+            lines.append("# CONFIG_%s is not set" % v["n"])
+        else:
+            lines.append("CONFIG_%s=%s" % (v["n"], val))
+    p = os.path.join(run.scratch, "asg_%d" % os.getpid())
+    kc.write_text(p, "\n".join(lines) + "\n")
+    kconf.load_config(p, replace=True)
+    os.unlink(p)
+    inv = getattr(kconf, "_invalidate_all", None)
+    if inv is not None:
+        inv()
+
+
+def build_case(run, item, rng, cap, path="set", with_outs=False, tab=None):
     """Observation table of one program on the real implementation."""
     prog, order = item["prog"], item["ord"]
     text = ktree.render(prog)
@@ -108,13 +210,21 @@ def build_case(run, item, rng, cap):
     kconf = kc.build(text, run.scratch)
     obs, sel = [], []
     n = 0
+    outs = []
     for asg in ktree.assignments(vars_):
-        apply_assignment(kconf, info, vars_, asg)
+        if path == "file":
+            apply_by_file(run, kconf, info, vars_, asg)
+        else:
+            apply_assignment(kconf, info, vars_, asg)
         obs.append(observe(kconf, names, info))
         sel.append(observe_sel(kconf, prog, cids))
+        if with_outs:
+            outs.append(observe_outs(run, kconf, names, info, tab))
         n += 1
+        if n % 50 == 0:
+            kc.reset_report(kconf)
     kc.reset_report(kconf)
-    return {"prog": prog, "ord": order, "vars": vars_, "obs": obs, "sel": sel, "text": text}, n
+    return {"prog": prog, "ord": order, "vars": vars_, "obs": obs, "sel": sel, "text": text, "has_outs": bool(with_outs), "outs": outs, "path": path}, n
 
 
 def case_at(case, idx):
@@ -125,16 +235,20 @@ def case_at(case, idx):
     return None
 
 
-def run_batch(run, cases, tag, invariants=("Report", "HiddenUserInert", "ExactlyOne", "WellTyped"), workers=16):
-    strings = set()
-    for c in cases:
+def batch_tables(cases_or_items, extra=()):
+    strings = set(extra)
+    for c in cases_or_items:
         ktree.strings_of(c["prog"], strings)
-        ktree.strings_of(c["vars"], strings)
-        ktree.strings_of(c["obs"], strings)
-    tab = ktree.tables(strings)
+        ktree.strings_of(c.get("vars", []), strings)
+        ktree.strings_of(c.get("obs", []), strings)
+    return ktree.tables(strings)
+
+
+def run_batch(run, cases, tag, invariants=("Report", "HiddenUserInert", "ExactlyOne", "WellTyped"), workers=16, tab=None):
+    tab = tab or batch_tables(cases)
     path = run.sub("eval_%s.json" % tag)
     with open(path, "w") as f:
-        json.dump({"tab": tab, "progs": [{k: v for k, v in c.items() if k != "text"} for c in cases]}, f)
+        json.dump({"tab": tab, "progs": [{k: v for k, v in c.items() if k not in ("text", "path")} for c in cases]}, f)
     cfg = run.sub("MC_Eval_%s.cfg" % tag)
     base = open(os.path.join(os.path.dirname(os.path.dirname(os.path.abspath(__file__))), "spec", "MC_Eval.cfg")).read()
     base = "\n".join(ln for ln in base.splitlines() if not ln.startswith("INVARIANT")) + "\n" + "".join("INVARIANT %s\n" % i for i in invariants)
@@ -142,31 +256,7 @@ def run_batch(run, cases, tag, invariants=("Report", "HiddenUserInert", "Exactly
         f.write(base)
     res = run_tlc("MC_Eval", cfg, run, env={"EVAL_DATA": path}, workers=workers, timeout=3000, tag=tag)
     os.unlink(path)
-    mism = []
-    for kind, pat in (("M", '<<"M", '), ("S", '<<"S", ')):
-        start = 0
-        while True:
-            j = res.out.find(pat, start)
-            if j < 0:
-                break
-            # bracket matching: 16 workers may interleave lines
-            depth, k = 0, j
-            while k < len(res.out):
-                if res.out.startswith("<<", k):
-                    depth += 1
-                    k += 2
-                    continue
-                if res.out.startswith(">>", k):
-                    depth -= 1
-                    k += 2
-                    if depth == 0:
-                        break
-                    continue
-                k += 1
-            try:
-                v = parse_value(res.out[j:k])
-                mism.append((kind, v[1], v[2], v[3]))
-            except Exception:
-                pass
-            start = k
+    from .tlc import extract_tuples
+
+    mism = [(v[0], v[1], v[2], v[3]) for v in extract_tuples(res.out, "M|S|O")]
     return res, mism
